@@ -1027,6 +1027,9 @@ class Exec:
         if name == "EVP_CipherInit_ex":
             ctx, cipher, eng, key, iv, enc = A
             res.calls.append((name, key, iv, enc))
+            if iv.obj is not None:
+                # snapshot of the bytes handed over as IV / nonce (functional obligations of C02)
+                res.calls.append(("init_iv_bytes", [z3.Select(iv.obj.arr, iv.off + bv(k, 64)) for k in range(self.cfg.get("iv_len", 12))]))
             if key.obj is not None:
                 kl = st.get("keylen")
                 kl = z3.SignExt(32, kl) if kl is not None else bv(self.cfg.get("key_len", 16), 64)
@@ -1063,7 +1066,9 @@ class Exec:
             self.store(st, TInt(32), self.new("outl2", 32), outl)
             if out.obj is not None:
                 self.in_bounds(st, out, bv(self.cfg.get("block", 1), 64), "write", "EVP_CipherFinal_ex output", write=True)
-            return self.nondet_int(st, name)
+            r = self.nondet_int(st, name)
+            res.calls.append((name, r))
+            return r
         if name == "EVP_CIPHER_CTX_ctrl":
             ctx, typ, arg, p = A
             t = z3.simplify(typ).as_long()
